@@ -17,7 +17,8 @@ RULE = ('A transport provider hands out successive SimNet transports, each attac
         'models, plus requests issued while the reconnect is in progress, a transport provider that takes 0-5 ticks and a '
         'transport whose own connect() suspends for 1-3 ticks, a client writer that stopped draining (pending requests still '
         'queued when the connection ends), lease-honouring clients whose pending requests are waiting for a lease when the '
-        'connection ends (the next server grants a fresh lease); after every reconnect two probes (a '
+        'connection ends (the next server grants a fresh lease), a server that is half-way through sending a fragmented '
+        'request when the connection ends (the next server starts its ids over and asks again); after every reconnect two probes (a '
         'request-response and a generator-backed stream) are issued. Oracle per reconnect: close() was called on the old '
         'transport; every request pending on the old connection ended with an error; the first frame on the new transport '
         'is a fresh SETUP (exactly one); the first request on it uses stream id 1; respond-flagged KEEPALIVEs appear on it '
@@ -50,6 +51,8 @@ def cases(draw):
                         # the client's writer stops draining before the pending requests are issued: they are still in
                         # the send queue when the connection ends
                         'block_sender': draw(st.sampled_from([False, False, True])),
+                        # the server is in the middle of sending a fragmented request to the client when the connection ends
+                        'server_partial': draw(st.sampled_from([False, False, True])),
                         'ticks_after': draw(st.integers(1, 5))})
     lease = draw(st.integers(0, 3)) == 0
     if lease:
@@ -58,8 +61,12 @@ def cases(draw):
             e['starve'] = draw(st.booleans())
     P = draw(st.sampled_from([100, 250, 500]))
     L = draw(st.sampled_from([1000, 1500, 3000]))
+    frag = draw(st.sampled_from([None, None, 64]))
+    for e in endings:
+        if e['kind'] == 'ka_timeout' or frag is None or lease:
+            e['server_partial'] = False
     return {'mode': mode, 'endings': endings, 'P_ms': P, 'L_ms': L, 'msg': draw(st.booleans()),
-            'frag': draw(st.sampled_from([None, None, 64])), 'lease': lease}
+            'frag': frag, 'lease': lease}
 
 
 def pending_spec(k):
@@ -104,6 +111,12 @@ def build(case):
                       'sub': {'n0': gen.MAXN, 'refill': 0}})
         cur['probes'].append(len(inter) - 1)
         ops.append(['start'])
+        if plan and any(e.get('server_partial') for e in case['endings']):
+            # the (fresh) server asks the client something as well: its stream ids start over too
+            for _ in range(2):  # two, so that the ids used on the previous connection come round again
+                inter.append({'k': 'rr', 'side': 's', 'req': [100, 2], 'resp': {'mode': 'now', 'p': [9, 3]}})
+                cur['probes'].append(len(inter) - 1)
+                ops.append(['start'])
         ops.append(['settle'])
 
     add_probes()
@@ -117,6 +130,9 @@ def build(case):
             cur['pending'].append(len(inter) - 1)
             ops.append(['start'])
         ops.append(['tick', e['ticks_before']])
+        if e.get('server_partial'):
+            inter.append({'k': 'rr', 'side': 's', 'req': [300, 0], 'resp': {'mode': 'now', 'p': [4, 0]}})
+            ops += [['settle'], ['regime', 'manual'], ['start'], ['tick', 2], ['deliver', 's', 2 if case['msg'] else 150], ['tick', 2]]
         ops.append(['mark', 'ending'])
         kind = e['kind']
         if kind in ('eof', 'error', 'etimedout', 'ehostunreach'):
@@ -136,6 +152,8 @@ def build(case):
                 inter.append({'k': 'rr', 'side': 'c', 'req': [2, 2], 'resp': {'mode': 'now', 'p': [4, 4]}})
                 cur['during'].append(len(inter) - 1)
                 ops.append(['start'])
+        if e.get('server_partial'):
+            ops.append(['regime', 'pumped'])
         ops += [['tick', 6], ['settle']]
         if case.get('lease'):
             ops += [GRANT, ['settle']]  # the new server grants a lease of its own
@@ -233,6 +251,10 @@ def judge(case):
                 if len(got) < 2 or not any(x['ev'] in ('on_complete',) or (x['ev'] == 'on_next' and x.get('complete')) for x in evs):
                     out.append(viol('probe_not_answered', 'C17:probe_not_answered:st', uid=uid, connection=ci, n=len(got),
                                     mode=case['mode'], ending=case['endings'][ci - 1]['kind'] if ci else None))
+    # nothing of an earlier connection may survive in the receive-side state of the client
+    fin = tr.final.get('c', {})
+    if fin.get('frags'):
+        out.append(viol('partial_frame_of_previous_connection_kept', 'C17:stale_partial_frame', sids=fin['frags'], mode=case['mode']))
     for err in tr.loop_errors:
         out.append(viol('unhandled_exception', 'C17:loop_error:%s' % err.get('type'), **err))
     nt = any(e['kind'] == 'ka_timeout' or e['pending'] for e in case['endings']) or len(case['endings']) >= 2
